@@ -47,7 +47,7 @@ ASSUMPTIONS = ['molecules are well formed (adjacency symmetric, shared Bond obje
                'rule patterns have one connected component and no stereo marks (checked by the translator)',
                'the pure-Python matcher is the implementation under test (no Cython extension in the sandbox)']
 HAS_DRIVER = True
-FINDINGS_MODULE = None
+FINDINGS_MODULE = 'ChythonModel.Findings.C14'
 SEARCH_ALWAYS_IN_THOROUGH = False
 
 _state = {}
@@ -323,6 +323,50 @@ def pattern_instances(ctx, per_rule):
     return out, missing
 
 
+def overlap_instances(ctx, per_rule=1):
+    """molecules in which two matches of one rule share a context atom (a pattern atom the rule does not rewrite and whose
+    degree the pattern leaves open): the second match is skipped by the overlap test of `__standardize`."""
+    tabs = real_tables()
+    out = []
+    for tname, recs in _state['std'].items():
+        for idx, rec in enumerate(recs):
+            touched = {n for n, *_ in rec['atom_fix']} | {x for a, b, _ in rec['bonds_fix'] for x in (a, b)}
+            ctxt = [n for n, a in rec['atoms'] if n not in touched and n not in rec['any_atoms'] and a['neighbors'] == ()
+                    and a['kind'] not in ('any', 'metal') and a['hybridization'] in ((), (1,))]
+            if not ctxt or not touched:
+                continue
+            got = 0
+            for attempt in range(10):
+                i1, i2 = instantiate(rec, ctx.rng), instantiate(rec, ctx.rng)
+                if i1 is None or i2 is None:
+                    continue
+                c = ctx.rng.choice(ctxt)
+                if i1[0][c] != i2[0][c]:
+                    continue
+                shift = max(i1[0]) + 1
+                atoms = dict(i1[0])
+                bonds = list(i1[1])
+                for n, v in i2[0].items():
+                    if n != c:
+                        atoms[n + shift] = v
+                for a, b, o in i2[1]:
+                    a = c if a == c else a + shift
+                    b = c if b == c else b + shift
+                    bonds.append((a, b, o))
+                try:
+                    mol = build(atoms, bonds)
+                    fixed_sets = {frozenset(mp[n] for n in touched)
+                                  for mp in tabs[tname][idx][0].get_mapping(mol, automorphism_filter=False)}
+                except Exception:
+                    continue
+                if len(fixed_sets) >= 2 and any(x.isdisjoint(y) for x in fixed_sets for y in fixed_sets):
+                    out.append((f'overlap:{tname}[{idx}]#{got}', mol, [], (tname, idx)))
+                    got += 1
+                    if got >= per_rule:
+                        break
+    return out
+
+
 def graft(rng, base, group, fillers):
     """base molecule with `group` attached through one of its CH3 fillers to an H-bearing carbon of base (or as a separate
     component when there is no such pair)."""
@@ -369,6 +413,7 @@ def molecule_pool(ctx):
     inst, missing = pattern_instances(ctx, 2 if ctx.quick else 6)
     _state['missing_instances'] = missing
     pool += inst
+    pool += overlap_instances(ctx, 1 if ctx.quick else 3)
     for s, m in molgen.handmade():
         pool.append((f'hand:{s}', m, [], None))
     for s in EXTRA:
@@ -752,10 +797,56 @@ def canon(m):
     return str(c)
 
 
+def _inv(m):
+    return sorted((a.atomic_number, a.isotope or 0, a.charge, a.is_radical, a.implicit_hydrogens if a.implicit_hydrogens is not None else -1,
+                   tuple(sorted(int(b) for b in m._bonds[n].values()))) for n, a in m._atoms.items())
+
+
+def same_structure(a, b, limit=5000):
+    """are the two molecules the same structure (aromaticity normalised)? Canonical strings first; when they differ the
+    decision is made by graph isomorphism (elements, isotopes, charges, radicals, bond orders, hydrogen counts), because the
+    canonical string of highly symmetric graphs may depend on the numbering (C01's recorded gap), which is not this property."""
+    a = a.copy()
+    b = b.copy()
+    for x in (a, b):
+        try:
+            x.thiele(fix_tautomers=False)
+        except Exception:
+            pass
+    if str(a) == str(b):
+        return True
+    if len(a) != len(b) or a.bonds_count != b.bonds_count or _inv(a) != _inv(b):
+        return False
+    for i, mp in enumerate(a.get_mapping(b, automorphism_filter=False)):
+        if all(a._atoms[n].implicit_hydrogens == b._atoms[k].implicit_hydrogens for n, k in mp.items()):
+            return True
+        if i > limit:
+            break
+    return False
+
+
+def inconsistent_atoms(m):
+    """atoms whose stored hydrogen count is not one the element's valence rules allow for their charge / radical / bonds
+    (`check_implicit`); atoms with aromatic bonds cannot be judged this way and are skipped. A count of `None` is reported by
+    `check_valence` already."""
+    bad = []
+    for n, a in m.atoms():
+        h = a.implicit_hydrogens
+        if h is None or any(int(b) == 4 for b in m._bonds[n].values()):
+            continue
+        try:
+            if not m.check_implicit(n, h):
+                bad.append(n)
+        except Exception:
+            bad.append(n)
+    return bad
+
+
 def is_valid(m):
-    """valence-valid input of the property: no atom without a hydrogen count and no hydrogen drawn with two bonds / a
-    multiple bond (chython never flags hydrogens; `implicify_hydrogens` documents a ValenceError for them)."""
-    return not m.check_valence() and not _hydrogen_drawn_invalid(m)
+    """valence-valid input of the property: no atom without a hydrogen count, every stored count allowed by the valence rules,
+    and no hydrogen drawn with two bonds / a multiple bond (chython never flags hydrogens; `implicify_hydrogens` documents a
+    ValenceError for them)."""
+    return not m.check_valence() and not _hydrogen_drawn_invalid(m) and not inconsistent_atoms(m)
 
 
 def pattern_names():
@@ -788,7 +879,7 @@ def culprit_rules(ints, check):
         except Exception:
             continue
         bad = {'hydrogen-count': hcount(c) != hcount(m0), 'net-charge': int(c) != int(m0),
-               'valence-error': bool(c.check_valence())}.get(check, False)
+               'valence-error': bool(c.check_valence() or inconsistent_atoms(c))}.get(check, False)
         if bad:
             out.append(text)
     return out
@@ -814,8 +905,8 @@ def oracle(ints, op, ft, rng=None, renumber=True):
         if not valid:
             continue
         q1, h1 = int(o), hcount(o)
-        if o.check_valence():
-            fails.append(('valence-error', f'atoms {o.check_valence()} after {op}'))
+        if o.check_valence() or inconsistent_atoms(o):
+            fails.append(('valence-error', f'atoms {o.check_valence() or inconsistent_atoms(o)} after {op}'))
             continue
         if op == 'neutralize':
             if q1 - q0 != h1 - h0:
@@ -845,11 +936,10 @@ def oracle(ints, op, ft, rng=None, renumber=True):
         try:
             a = m0s.copy()
             apply_op(op, a, ft)
-            s1 = canon(a)
             r = molgen.rebuild(a)
             apply_op(op, r, ft)
-            if canon(r) != s1:
-                fails.append(('idempotent-rebuilt', f'{s1} -> {canon(r)}'))
+            if not same_structure(a, r):
+                fails.append(('idempotent-rebuilt', f'{canon(a)} -> {canon(r)}'))
         except Exception as e:
             fails.append(('idempotent-rebuilt', f'raised {type(e).__name__}: {e}'))
     if renumber and rng is not None and not fails and op != 'tautomers':
@@ -858,26 +948,38 @@ def oracle(ints, op, ft, rng=None, renumber=True):
             apply_op(op, m2, ft)
             a = m0s.copy()
             apply_op(op, a, ft)
-            if canon(a) != canon(m2):
+            if not same_structure(a, m2):
                 fails.append(('renumbering', f'{canon(a)} vs {canon(m2)} (mapping {mapping})'))
         except Exception as e:
             fails.append(('renumbering', f'renumbered input raised {type(e).__name__}: {e}'))
     return fails
 
 
-def signature(ints, op, check, rng_seed=0):
+def signature(ints, op, check, ft=False):
     """smallest stable description of what fails where: operation, clause and - where one can be isolated - the rule
     (by its SMARTS) or sub-operation that already breaks the clause on its own."""
-    import random
     base = sig(op, check)
     if op in ('standardize', 'canonicalize', 'tautomers') and check in ('hydrogen-count', 'net-charge', 'valence-error'):
         c = culprit_rules(ints, check)
         if c:
             return [f'C14/standardize/{check}/{x}' for x in c]
-    if op in ('standardize', 'canonicalize') and check in ('renumbering', 'idempotent-rebuilt', 'idempotent'):
-        for seed in range(4):
-            if any(x[0] == 'renumbering' for x in oracle(ints, 'fix_resonance', False, random.Random(seed))):
-                return ['C14/fix_resonance/renumbering']
+    if op in ('standardize', 'canonicalize') and check == 'idempotent':
+        try:
+            m0, _ = wire.ints_to_mol(ints, calc=True)
+            r1 = [t for _m, r, t in m0.standardize(logging=True, fix_tautomers=ft) if r >= 0]
+            r2 = [t for _m, r, t in m0.standardize(logging=True, fix_tautomers=ft) if r >= 0]
+            if r2 and set(r2) <= set(r1):
+                # a rule that fired in the first pass fires again in the second: a match that was skipped because it
+                # overlapped an earlier match of the same rule (on an atom the rule does not rewrite) is never retried
+                return ['C14/standardize/idempotent/overlap-skip']
+            if r2:
+                return [f'C14/standardize/idempotent/{x}' for x in sorted(set(r2))]
+        except Exception:
+            pass
+    if op in ('standardize', 'canonicalize', 'fix_resonance') and check in ('renumbering', 'idempotent-rebuilt', 'idempotent'):
+        c = renumber_culprits(ints)
+        if c:
+            return ['C14/fix_resonance/renumbering' if x == 'fix_resonance' else f'C14/standardize/renumbering/{x}' for x in c]
     return [base]
 
 
@@ -905,16 +1007,64 @@ def inverse_oracle(ints):
         b = a.copy()
         b.explicify_hydrogens()
         full = str(b)
+        e0 = b.copy()
         b.implicify_hydrogens()
-        if str(b) != base or [(n, x.implicit_hydrogens) for n, x in b.atoms()] != hs:
+        if [(n, x.implicit_hydrogens) for n, x in b.atoms()] != hs or wire.mol_to_ints(_nostereo(b)) != wire.mol_to_ints(_nostereo(a)):
             fails.append(('implicify-after-explicify', f'{base} -> {full} -> {str(b)}'))
         c = b.copy()
         c.explicify_hydrogens()
-        if str(c) != full:
+        if not same_structure(c, wire.ints_to_mol(wire.mol_to_ints(e0), calc=True)[0]):
             fails.append(('explicify-after-implicify', f'{full} -> {str(c)}'))
     except Exception as e:
         fails.append(('inverse-raises', f'{type(e).__name__}: {e}'))
     return fails
+
+
+def _nostereo(m):
+    c = m.copy()
+    c.clean_stereo()
+    return c
+
+
+def renumber_culprits(ints, seeds=6):
+    """rules that, applied alone through the real `__standardize`, already give different structures for the molecule and a
+    renumbered copy (the SMARTS of those rules); `fix_resonance` is reported by name."""
+    import random
+    m0, _ = wire.ints_to_mol(ints, calc=True)
+    m0.clean_stereo()
+    try:
+        log = m0.copy().standardize(logging=True, fix_tautomers=True)
+    except Exception:
+        return []
+    names = pattern_names()
+    fired = []
+    for _match, r, text in log:
+        if r >= 0 and text in names and text not in fired:
+            fired.append(text)
+    out = []
+    for seed in range(seeds):
+        rng = random.Random(seed)
+        m2, _mp = molgen.renumber(rng, m0)
+        a, b = m0.copy(), m2.copy()
+        a.fix_resonance()
+        b.fix_resonance()
+        if not same_structure(a, b):
+            if 'fix_resonance' not in out:
+                out.append('fix_resonance')
+            continue
+        for text in fired:
+            if text in out:
+                continue
+            t, i = names[text]
+            a, b = m0.copy(), m2.copy()
+            try:
+                a._Standardize__standardize([real_tables()[t][i]], True)
+                b._Standardize__standardize([real_tables()[t][i]], True)
+            except Exception:
+                continue
+            if not same_structure(a, b):
+                out.append(text)
+    return out
 
 
 def documented_oracle(raw, result):
@@ -963,7 +1113,7 @@ def relational(ctx, pool, programs):
                 ctx.count(('R', op, ft, str(mol)), nontrivial=mol.bonds_count > 0)
                 ctx.dist(f'R:{op}:' + ('valid' if valid else 'invalid-input'))
                 for check, detail in oracle(ints, op, ft, ctx.rng):
-                    for sg in signature(ints, op, check):
+                    for sg in signature(ints, op, check, ft):
                         ctx.fail(sg, f'{op}(fix_tautomers={ft}) on {lab} [{str(mol)}]: {check}: {detail}',
                                  {'kind': 'relational', 'op': op, 'fix_tautomers': ft, 'wire': ints, 'check': check, 'smiles': str(mol)})
         for check, detail in inverse_oracle(ints):
@@ -996,7 +1146,7 @@ def search(ctx):
             for ft in (False, True):
                 for rep in range(3):
                     for check, detail in oracle(ints, op, ft, ctx.rng, renumber=not ft or lab.startswith('corpus[')):
-                        for sg in signature(ints, op, check):
+                        for sg in signature(ints, op, check, ft):
                             ctx.fail(sg, f'{op}(fix_tautomers={ft}) on {lab} [{str(mol)}]: {check}: {detail}',
                                      {'kind': 'relational', 'op': op, 'fix_tautomers': ft, 'wire': ints, 'check': check, 'smiles': str(mol)})
                     if op not in ('standardize', 'canonicalize'):
@@ -1023,6 +1173,10 @@ def api_probe(name, smi):
             m = smiles(smi)
             ts = [str(t) for t in itertools.islice(m.enumerate_tautomers(limit=20), 20)]
             return False, f'{smi}: {len(ts)} tautomers enumerated'
+        if name == 'tautomers-valid':
+            m = smiles(smi)
+            bad = [str(t) for t in itertools.islice(m.enumerate_tautomers(limit=40), 40) if t.check_valence() or inconsistent_atoms(t)]
+            return bool(bad), f'{smi}: valence-invalid tautomers {bad}' if bad else f'{smi}: every enumerated tautomer is valence-valid'
     except Exception as e:
         return True, f'{smi}: {name} raised {type(e).__name__}: {e}'
     raise ValueError(name)
